@@ -42,6 +42,8 @@ TRANSFORMS = [
     "translate(5,5) scale(2)",
     "scale(-1,1) translate(-24,0)",
     "translate(0.5 0.25)",
+    "translate(1 2)",
+    "scale(2 3)",
 ]
 
 
@@ -428,6 +430,12 @@ def _one_value_off(draw, svg):
         tail = svg[m.end():m.end() + 200].split(">")[0]
         if "stroke-dashoffset" not in tail:
             return svg[: m.end()] + f' stroke-dashoffset="{draw(st.sampled_from(_ALT_VALUES["stroke-dashoffset"]))}"' + svg[m.end():]
+    # a transform whose spelling differs from the original by blanks only - but blanks separate numbers, so
+    # "translate(1 2)" and "translate(12)", "rotate(45 10 10)" and "rotate(4510 10)" are different transforms
+    tr = [m for m in re.finditer(r' transform="([^"]*\d) +(\d[^"]*)"', svg)]
+    if tr and (not occ or draw(st.integers(0, 2)) == 0):
+        m = tr[draw(st.integers(0, len(tr) - 1))]
+        return svg[: m.end(1)] + svg[m.start(2):]
     if not occ:
         return None
     m = occ[draw(st.integers(0, len(occ) - 1))]
